@@ -1,0 +1,172 @@
+//go:build verif
+
+package desync
+
+import (
+	"fmt"
+	"os"
+	"strconv"
+	"strings"
+	"sync"
+	"sync/atomic"
+	"syscall"
+	"time"
+)
+
+// Verification hooks, only compiled in with the "verif" build tag. They allow
+// a test harness to observe and perturb the library at named points, to
+// install an emulation of FICLONERANGE, and to inspect internal state for
+// invariant checks. A small failpoint interpreter driven by the environment
+// variable VERIF_FAILPOINTS makes the same points usable in the CLI binary:
+//
+//	VERIF_FAILPOINTS="point=kill@3;point=sleep(5);point=partial(17)@2"
+//
+// kill@k     SIGKILL the process at the k-th hit of the point (k>=1)
+// sleep(ms)  sleep at every hit
+// partial(n)@k  (verifPartialWrite points only) write n bytes then SIGKILL
+type verifCloneOps = VerifCloneOps
+
+// VerifCloneOps emulates block cloning on filesystems that don't support it.
+type VerifCloneOps interface {
+	CanClone(dstFile, srcFile string) bool
+	CloneRange(dst, src *os.File, srcOffset, srcLength, dstOffset uint64) error
+}
+
+var (
+	verifYieldFn atomic.Pointer[func(string)]
+	verifCloneMu sync.RWMutex
+	verifCloneFn VerifCloneOps
+	verifFP      map[string]*verifFailpoint
+)
+
+type verifFailpoint struct {
+	kind    string // kill, sleep, partial
+	arg     int
+	at      int64
+	counter int64
+}
+
+// VerifSetYield installs (or removes with nil) the callback invoked at every hook point.
+func VerifSetYield(f func(point string)) {
+	if f == nil {
+		verifYieldFn.Store(nil)
+		return
+	}
+	verifYieldFn.Store(&f)
+}
+
+// VerifSetClone installs (or removes with nil) a FICLONERANGE emulation.
+func VerifSetClone(c VerifCloneOps) {
+	verifCloneMu.Lock()
+	verifCloneFn = c
+	verifCloneMu.Unlock()
+}
+
+func verifClone() verifCloneOps {
+	verifCloneMu.RLock()
+	defer verifCloneMu.RUnlock()
+	return verifCloneFn
+}
+
+func verifYield(point string) {
+	if fp, ok := verifFP[point]; ok {
+		n := atomic.AddInt64(&fp.counter, 1)
+		switch fp.kind {
+		case "kill":
+			if n == fp.at {
+				syscall.Kill(syscall.Getpid(), syscall.SIGKILL)
+				select {}
+			}
+		case "sleep":
+			time.Sleep(time.Duration(fp.arg) * time.Millisecond)
+		}
+	}
+	if f := verifYieldFn.Load(); f != nil {
+		(*f)(point)
+	}
+}
+
+// verifPartialWrite is called right before b is written to f. With a
+// partial(n)@k failpoint on the point it writes the first n bytes and kills
+// the process, emulating a crash in the middle of a write.
+func verifPartialWrite(point string, f *os.File, b []byte) {
+	if fp, ok := verifFP[point]; ok && fp.kind == "partial" {
+		n := atomic.AddInt64(&fp.counter, 1)
+		if n == fp.at {
+			k := fp.arg
+			if k > len(b) {
+				k = len(b)
+			}
+			f.Write(b[:k])
+			syscall.Kill(syscall.Getpid(), syscall.SIGKILL)
+			select {}
+		}
+		return
+	}
+	verifYield(point)
+}
+
+func init() {
+	spec := os.Getenv("VERIF_FAILPOINTS")
+	if spec == "" {
+		return
+	}
+	verifFP = make(map[string]*verifFailpoint)
+	for _, term := range strings.Split(spec, ";") {
+		term = strings.TrimSpace(term)
+		if term == "" {
+			continue
+		}
+		kv := strings.SplitN(term, "=", 2)
+		if len(kv) != 2 {
+			fmt.Fprintf(os.Stderr, "verif: bad failpoint %q\n", term)
+			os.Exit(3)
+		}
+		fp := &verifFailpoint{at: 1}
+		action := kv[1]
+		if i := strings.Index(action, "@"); i >= 0 {
+			at, err := strconv.Atoi(action[i+1:])
+			if err != nil {
+				fmt.Fprintf(os.Stderr, "verif: bad failpoint %q\n", term)
+				os.Exit(3)
+			}
+			fp.at = int64(at)
+			action = action[:i]
+		}
+		switch {
+		case action == "kill":
+			fp.kind = "kill"
+		case strings.HasPrefix(action, "sleep(") && strings.HasSuffix(action, ")"):
+			fp.kind = "sleep"
+			fp.arg, _ = strconv.Atoi(action[6 : len(action)-1])
+		case strings.HasPrefix(action, "partial(") && strings.HasSuffix(action, ")"):
+			fp.kind = "partial"
+			fp.arg, _ = strconv.Atoi(action[8 : len(action)-1])
+		default:
+			fmt.Fprintf(os.Stderr, "verif: bad failpoint %q\n", term)
+			os.Exit(3)
+		}
+		verifFP[kv[0]] = fp
+	}
+}
+
+// VerifIndexPosState exposes the cursor of an IndexPos for invariant checks.
+type VerifIndexPosState struct {
+	Pos            int64
+	CurChunkIdx    int
+	CurChunkOffset int64
+	CurChunkID     ChunkID
+	CurChunk       []byte
+}
+
+// VerifState returns the internal cursor state.
+func (ip *IndexPos) VerifState() VerifIndexPosState {
+	return VerifIndexPosState{ip.pos, ip.curChunkIdx, ip.curChunkOffset, ip.curChunkID, ip.curChunk}
+}
+
+// VerifDone reports if chunk i of the sparse file is marked as loaded.
+func (sf *SparseFile) VerifDone(i int) bool {
+	sf.loader.mu.RLock()
+	defer sf.loader.mu.RUnlock()
+	return sf.loader.done.Get(i)
+}
